@@ -314,6 +314,8 @@ func c12BadPackets() []c12Bad {
 		{Name: "no NUL at all", Bytes: pgproto.Untyped(pgproto.Cat(ver, []byte("useralice")))},
 		{Name: "value not terminated", Bytes: pgproto.Untyped(pgproto.Cat(ver, []byte("user\x00alice")))},
 		{Name: "version only", Bytes: pgproto.Untyped(ver)},
+		{Name: "two complete pairs, third key without value", Bytes: pgproto.Untyped(pgproto.Cat(ver, []byte("user\x00alice\x00database\x00prod\x00x")))},
+		{Name: "one complete pair then a truncated value", Bytes: pgproto.Untyped(pgproto.Cat(ver, []byte("user\x00alice\x00database\x00pr")))},
 		{Name: "CancelRequest as first packet", Bytes: pgproto.CancelRequest(1, 2), Silent: true},
 		{Name: "CancelRequest after SSLRequest->N", Pre: pgproto.SSLRequest(), PreReply: "N", Bytes: pgproto.CancelRequest(1, 2), Silent: true},
 		{Name: "CancelRequest in the same segment as a refused SSLRequest", Pre: pgproto.SSLRequest(), PreReply: "N", Inline: true, Bytes: pgproto.CancelRequest(1, 2), Silent: true},
@@ -366,6 +368,25 @@ func c12RunBad(cfg c12Config, b c12Bad) explore.Result {
 	if !b.Silent {
 		if k := harness.Kinds(out); k != "" && k != "E" {
 			res.Fail("malformed-startup-reply", fmt.Sprintf("%s: reply %q (only silence or a single ErrorResponse is acceptable)", b.Name, k))
+		}
+	}
+	// the next connection of the same server is served with exactly what IT sends (nothing of the rejected packet)
+	if len(res.Violations) == 0 {
+		c2 := one.Server.Connect()
+		out2, st2 := c2.Step(pgproto.Startup("application_name", "next-client"))
+		if cfg.Auth && harness.Kinds(out2) == "R" {
+			out2, st2 = c2.Step(pgproto.Password("good"))
+		}
+		if st2 == memnet.Parked && strings.HasSuffix(harness.Kinds(out2), "Z") {
+			seen.calls = 0
+			c2.Step(pgproto.Query("q"))
+			if seen.calls == 1 {
+				if len(seen.client) != 1 || seen.client["application_name"] != "next-client" || seen.user != "" || seen.server["session_authorization"] != "" {
+					res.Fail("client-parameters", fmt.Sprintf("%s, then a connection that sent only application_name: handlers see client parameters %v, user %q, session_authorization %q", b.Name, seen.client, seen.user, seen.server["session_authorization"]))
+				}
+			}
+		} else {
+			res.Fail("server-unhealthy-afterwards", fmt.Sprintf("%s: the next connection's start-up was answered %q (%s)", b.Name, harness.Kinds(out2), st2))
 		}
 	}
 	res.Outcome = "rejected"
